@@ -459,6 +459,15 @@ pub fn prim_program(rng: &mut Rng, n: usize) -> String {
                 let v = ((m >> 1) as i32) ^ -((m & 1) as i32);
                 format!("vari32={v}")
             }
+            _ if rng.chance(1, 150) => {
+                // a frame of tens of kilobytes, a random share of it noise: the deflater flushes
+                // several blocks, and an output that drains it meets short reads in mid-stream
+                let len = 20_000 + rng.usize_below(110_000);
+                let noisy = rng.usize_below(len + 1);
+                let mut b = rng.bytes(noisy);
+                b.extend((noisy..len).map(|i| (i % 7) as u8));
+                format!("compressed={}", model::hex(&b))
+            }
             _ => {
                 let len = rng.usize_below(12);
                 let b = rng.bytes(len);
